@@ -244,7 +244,9 @@ class Prop:
             trait governs - while the C code is in the middle of replacing the hook."""
 
             def __init__(self, owner, name, n):
-                self.owner, self.name, self.n = owner, name, n
+                # (the owner is held weakly: no reference cycle, so the finalizer runs
+                # the moment the trait lets go of the hook, not when a collector comes by)
+                self.owner, self.name, self.n = weakref.ref(owner), name, n
 
             def __call__(self, *a):
                 env.point("h:any", "evilhook")
@@ -253,7 +255,9 @@ class Prop:
             def __del__(self):
                 try:
                     env.point("del:evil", self.n)
-                    o, nm = self.owner, self.name
+                    o, nm = self.owner(), self.name
+                    if o is None:
+                        return
                     try:
                         setattr(o, nm, self.n)
                     except Exception:      # noqa: BLE001
@@ -474,8 +478,13 @@ class Prop:
                 depth[0] -= 1
         env.actions["adv"] = act
         if cfg.get("storm"):
+            # young-generation collections at every opportunity; the oldest generation is
+            # collected by hand at the end of every op, never on the interpreter's own
+            # initiative (that depends on how large the process heap has grown, i.e. on
+            # the runs this worker executed before)
+            gc.collect()
             gc.enable()
-            gc.set_threshold(1, 1, 1)
+            gc.set_threshold(1, 1, 1 << 30)
         for i, op in enumerate(trace["ops"]):
             env.begin_op(i, op)
             k = op["k"]
@@ -643,6 +652,12 @@ class Prop:
                 # deleted / assigned values of several kinds - and then the attribute is
                 # USED through the object
                 nm = ["vp", "p", "cv", "dv", "a", "dflt", "ro", "dh", "ex", "l"][op["v"] % 10]
+                if cfg.get("storm"):
+                    # the hooks below sit in reference cycles and their finalizers log: in
+                    # storm mode WHEN the collector finds them depends on how much the
+                    # interpreter's own caches allocate (process history); collections are
+                    # suspended for this op and one is made at its end
+                    gc.disable()
                 it = safe(o._trait, nm, 2)
                 if it is not None:
                     attrs = sorted(a for a in dir(it) if not a.startswith("__")
@@ -685,6 +700,9 @@ class Prop:
                     safe(delattr, o, nm)
                     safe(getattr, o, nm)
                 del it
+                if cfg.get("storm"):
+                    gc.collect()
+                    gc.enable()
             elif k == "temp_delegate":
                 safe(setattr, o, "dt", v)
                 safe(getattr, o, "dt")
@@ -735,6 +753,8 @@ class Prop:
                 safe(o.all_trait_names)
                 safe(o._instance_traits)
             del v
+            if cfg.get("storm"):
+                gc.collect()
             env.end_op()
             env.token(k, len(op.get("env", ())))
         env.nontrivial = True
